@@ -215,7 +215,7 @@ def run_check(prop: str, tier: str, seed: int, only=None):
     # ---- mechanical source scans (each item is an obligation discharged -- or not -- by the scanner)
     scan_report = []
     for sname, sprops, sfn in REG.static_checks:
-        if prop not in sprops or only:
+        if prop not in sprops or (only and only not in sname):
             continue
         for item in sfn():
             total += 1
